@@ -107,3 +107,25 @@ def connReads : List Bytes → List Nat → List (Bytes × Bool)
 
 end Packets
 end Bifrost
+
+namespace Bifrost
+namespace Packets
+open Framing (Reader)
+
+/-- Largest single buffer `PacketConn.rxPump` / `Session.RecvMsg` allocates on a stream,
+whatever the stream contains (a buffer is allocated only after the length check). -/
+def rxMaxAlloc (max : Nat) : Nat → Reader → Nat
+  | 0, _ => 0
+  | fuel + 1, r =>
+    match readFull r 4 [] with
+    | .ok h r1 =>
+      let n := unle32 h
+      if n = 0 then rxMaxAlloc max fuel r1   -- Session: empty message; PacketConn stops (0 allocated either way)
+      else if n > max then 0
+      else match readFull r1 n [] with
+        | .ok _ r2 => Nat.max n (rxMaxAlloc max fuel r2)
+        | _ => n
+    | _ => 0
+
+end Packets
+end Bifrost
